@@ -289,6 +289,9 @@ func runC17(c *hx.Ctx) {
 			c.Count("trees:create-" + zipTopErrClass(cerr))
 		}
 		if plain {
+			// the decidable side condition of the Coq theorem dir_vs_list_agree_partial holds
+			// for this tree: evaluated by the model (the implementation has nothing to say)
+			c.Case("zip.DirListCondition", zipTreeVal(t), wire.Bool(true))
 			msg := c17TreeOracle(root, t, m)
 			c.Check("dir-vs-list", msg == "", "", zipIn{Op: "tree", Tree: zipJsTree(t), ModPath: m.Path, ModVersion: m.Version}, msg)
 			c.Count("trees:plain")
